@@ -556,6 +556,15 @@ guard_init(int nslots)
                 gslots[s].plain = NULL;
         }
 }
+/* let a slot carve its PL_PLAIN objects from caller-supplied memory (shared arena of the crash engine) */
+void
+guard_set_plain(int slot, void *base, size_t size)
+{
+        gslots[slot].plain = base;
+        gslots[slot].plain_sz = size;
+        gslots[slot].plain_used = 0;
+}
+
 void
 guard_reset_slot(int slot)
 {
